@@ -420,7 +420,7 @@ def DecryptionKey.show (k : DecryptionKey) : Str :=
       | some f => ",KEYFORMAT=".toList ++ quote f.show
       | none => [])
   ++ (match k.versions with
-      | some v => if !v.isDefault then ",KEYFORMATVERSIONS=".toList ++ v.show else []
+      | some v => ",KEYFORMATVERSIONS=".toList ++ v.show
       | none => [])
 
 def DecryptionKey.requiredVersion (k : DecryptionKey) : Nat :=
